@@ -179,7 +179,7 @@ def run_tlc(sc, module, cfg, workers=None, simulate=None, depth=None, seed=None,
     clean pass (or a property violation when allow_violation)."""
     d = _prep_spec_dir(sc, extra_files)
     meta = tempfile.mkdtemp(prefix="meta-", dir=sc.dir)
-    jopts = ["-XX:+UseParallelGC", "-Xss256m"]
+    jopts = ["-XX:+UseParallelGC", "-Xss256m", "-Djava.io.tmpdir=" + meta]   # TLC's own temp directories go with the scratch
     if heap:
         jopts.append("-Xmx" + heap)
     if deque:
